@@ -78,6 +78,24 @@ CLAIMED = {
         technique='atomic-segment contracts with ghost history on real source, pyvc -> z3',
         design_ref='7/C24, 2.2',
     ),
+    'C03': dict(
+        text='The effective attempts_before_update trigger is executed symbolically (NULL-aware) for an arbitrary UPDATE and inside every real statement that writes '
+        'attempts (5 procedures + the driver\'s embedded billing update, closed-world scan): for all OLD rows satisfying the table invariant and all arguments, '
+        'billed time is bounded by end-start, never decreases except on an earlier end or activation timeout, start only moves earlier, reason/end freeze, and the invariant is re-established.',
+        note=COMMON_NOTE + 'Assumed: each procedure call is atomic (serialisable isolation); MySQL NULL/boolean semantics as encoded in vc/sqlvc.py; integer column widths sufficient; SQL cannot be executed in this sandbox so counter-models are rows (VIOLATION ... no-failing-input-found). ' + 'Call-site facts used as preconditions are listed in evidence (non-NULL time/reason arguments; NULL end only for attempts without recorded times).',
+        technique='trigger/procedure contracts on the real SQL text, sqlvc symbolic execution -> z3',
+        engine='sqlvc',
+        design_ref='7/C03, 2.3',
+    ),
+    'C10': dict(
+        text='Every procedure that changes free cores or ends/places an attempt (schedule_job, mark_job_creating, mark_job_started, unschedule_job, mark_job_complete via add_attempt, '
+        'deactivate_instance, activate_instance, mark_instance_deleted) is executed symbolically path by path: delta free cores == cores x (attempt live before - live after) for every live instance, '
+        'frames for other instances/attempts, deactivate leaves free == cores. One known finding (pending-instance release asymmetry) is listed in known_findings.json.',
+        note=COMMON_NOTE + 'Assumed: each procedure call is atomic (serialisable isolation); MySQL NULL/boolean semantics as encoded in vc/sqlvc.py; integer column widths sufficient; SQL cannot be executed in this sandbox so counter-models are rows (VIOLATION ... no-failing-input-found). ' + 'Delta obligations lift to the invariant by sum localisation (paper lemma L1). Python-side mirror not covered.',
+        technique='procedure contracts (delta obligations) on the real SQL text, sqlvc -> z3',
+        engine='sqlvc',
+        design_ref='7/C10, 2.3',
+    ),
 }
 
 NOT_YET = 'not yet brought within the verifier\'s reach in this build (planned in DESIGN.md section 7); no claim is made'
@@ -130,6 +148,7 @@ def manifest():
         'engines': [
             {'name': 'vcore', 'path': 'vc/core.py', 'serves_properties': sorted(CLAIMED), 'kind_free_text': 'obligation discharge (z3, cvc5 fallback), verdicts, evidence'},
             {'name': 'relang', 'path': 'vc/relang.py', 'serves_properties': [p for p in ('C25', 'C28') if p in CLAIMED], 'kind_free_text': 'string predicates / regex literals -> regular languages'},
+            {'name': 'sqlvc', 'path': 'vc/sqlvc.py', 'serves_properties': [p for p in ('C01','C02','C03','C04','C05','C06','C07','C09','C10','C41') if p in CLAIMED], 'kind_free_text': 'MySQL stored programs (migrations replayed) -> symbolic execution over an abstract database'},
             {'name': 'segments', 'path': 'vc/segments.py', 'serves_properties': [p for p in ('C16', 'C24', 'C26', 'C40') if p in CLAIMED], 'kind_free_text': 'atomic segments / rely-guarantee for asyncio monitors'},
             {'name': 'pyvc', 'path': 'vc/pyvc.py', 'serves_properties': [p for p in sorted(CLAIMED) if p not in ('C28',)], 'kind_free_text': 'Python AST -> verification conditions (symbolic execution with contracts and loop invariants)'},
         ],
